@@ -63,9 +63,14 @@ def _pattern(p, subj):
         test = ast.Call(func=ast.Name(id="isinstance", ctx=ast.Load()), args=[copy.deepcopy(subj), p.cls], keywords=[])
         tests = [test]
         for attr, kp in zip(p.kwd_attrs, p.kwd_patterns):
-            if not isinstance(kp, ast.MatchValue):
+            if isinstance(kp, ast.MatchSequence) and all(isinstance(e, ast.MatchValue) and isinstance(e.value, ast.Constant) for e in kp.patterns):
+                # attr=(2, 2): the attribute is a sequence with exactly these elements (a shape tuple)
+                val = ast.Tuple(elts=[e.value for e in kp.patterns], ctx=ast.Load())
+            elif isinstance(kp, ast.MatchValue):
+                val = kp.value
+            else:
                 return None
-            tests.append(ast.Compare(left=ast.Attribute(value=copy.deepcopy(subj), attr=attr, ctx=ast.Load()), ops=[ast.Eq()], comparators=[kp.value]))
+            tests.append(ast.Compare(left=ast.Attribute(value=copy.deepcopy(subj), attr=attr, ctx=ast.Load()), ops=[ast.Eq()], comparators=[val]))
         return (tests[0] if len(tests) == 1 else ast.BoolOp(op=ast.And(), values=tests)), []
     if isinstance(p, ast.MatchValue):
         return ast.Compare(left=copy.deepcopy(subj), ops=[ast.Eq()], comparators=[p.value]), []
